@@ -147,4 +147,72 @@ theorem ctx_fn_tail (n : Nat) (cur : Pos) (env : Env) (e : Expr) (s : SS) :
   | brk v s' => rfl
   | stop w => rfl
 
+/-! ### function body, NON-tail position, value used: `((fn [] (def r_ e) r_))` (context `fn_used` of the check) -/
+
+def ctxFnUsed (e : Expr) : Expr :=
+  wrapForm [wrapForm [.sym "fn", .btup [], wrapForm [.sym "def", .sym "r_", e], .sym "r_"]]
+
+def withLam2 (s : SS) (env : Env) (body : List Expr) : SS :=
+  { s with lams := s.lams.push { params := [], body := body, env := env, name := none },
+           st := (s.st.alloc (.lam s.lams.size 0)).1 }
+
+/-- what the wrapper does with the result of `e`: the value is bound to `r_` (one more box) and read back; bindings do not
+    escape; a top-level `break` of `e` returns from the function with its value, without the binding -/
+def fnUsedResult (env : Env) : R (Value × Env) → R (Value × Env)
+  | .ok (v, _) s => .ok (v, env) { s with boxes := s.boxes.push v }
+  | .brk v s => .ok (v, env) s
+  | r => r
+
+theorem eval_fn0' (k : Nat) (cur : Pos) (env : Env) (body : List Expr) (s : SS) :
+    eval (k + 1) cur env (wrapForm (.sym "fn" :: .btup [] :: body)) s = .ok (.fn s.st.heap.size, env) (withLam2 s env body) := by
+  rw [wrapForm, eval] <;> try (simp; done)
+  simp [withLam2, allocV, State.alloc]
+
+theorem applyFn_lam0' (j : Nat) (cur : Pos) (env : Env) (body : List Expr) (s : SS) :
+    applyFn (j + 2) cur (.fn s.st.heap.size) [] (withLam2 s env body) =
+      (match evalSeq (j + 1) cur env body (withLam2 s env body) with
+       | .ok (v, _) s4 => .ok v s4
+       | .brk v s4 => .ok v s4
+       | .err v p s4 => .err v p s4
+       | .stop w => .stop w) := by
+  rw [applyFn]
+  simp [withLam2, State.alloc, classify, bindAll, symName]
+  rfl
+
+theorem readBox_push (s : SS) (v : Value) : readBox { s with boxes := s.boxes.push v } s.boxes.size = v := by
+  simp [readBox]
+
+/-- `sem_context_free`, function body in non-tail position with the value used through a local: evaluating
+    `((fn [] (def r_ e) r_))` is `fnUsedResult` of evaluating `e` (in the state that has the wrapper's closure object) -/
+theorem ctx_fn_used (n : Nat) (cur : Pos) (env : Env) (e : Expr) (s : SS) :
+    eval (n + 6) cur env (ctxFnUsed e) s =
+      fnUsedResult env (eval (n + 2) cur env e (withLam2 s env [wrapForm [.sym "def", .sym "r_", e], .sym "r_"])) := by
+  rw [ctxFnUsed, wrapForm, eval] <;> try (simp [wrapForm]; done)
+  have h1 := eval_fn0' (n + 4) cur env [wrapForm [.sym "def", .sym "r_", e], .sym "r_"] s
+  have h2 := applyFn_lam0' (n + 3) cur env [wrapForm [.sym "def", .sym "r_", e], .sym "r_"] s
+  simp only [posOf_unmapped, h1, evalArgs, h2]
+  generalize withLam2 s env [wrapForm [.sym "def", .sym "r_", e], .sym "r_"] = s1
+  -- the body: (def r_ e) then r_
+  have hdef : eval (n + 3) cur env (wrapForm [.sym "def", .sym "r_", e]) s1 =
+      (match eval (n + 2) cur env e s1 with
+       | .ok (v, env1) s' => .ok (v, ("r_", s'.boxes.size) :: env1) { s' with boxes := s'.boxes.push v }
+       | .err v p s' => .err v p s' | .brk v s' => .brk v s' | .stop w => .stop w) := by
+    rw [wrapForm, eval] <;> try (simp; done)
+    simp only [posOf_unmapped, List.getLast?, List.getLast]
+    cases eval (n + 2) cur env e s1 with
+    | ok a s' => cases a; simp [destructure, bind]
+    | err v p s' => rfl
+    | brk v s' => rfl
+    | stop w => rfl
+  simp only [evalSeq, hdef]
+  cases eval (n + 2) cur env e s1 with
+  | ok a s' =>
+    cases a with
+    | mk v env1 =>
+      simp only [evalSeq, eval, lookupEnv, fnUsedResult]
+      simp [readBox]
+  | err v p s' => rfl
+  | brk v s' => rfl
+  | stop w => rfl
+
 end JanetModel.Lang
